@@ -93,7 +93,41 @@ def positions(spec):
     return pos
 
 
-def build(jinja2, spec, taints):
+CARRIERS = ("list", "tuple", "dict", "obj", "strsub")
+
+
+class _StrObj:
+    """an object that is not a string but whose text is the payload"""
+
+    def __init__(self, v):
+        self.v = v
+
+    def __str__(self):
+        return self.v
+
+    def __repr__(self):
+        return "O(" + self.v + ")"
+
+
+class _StrSub(str):
+    """a plain str subclass (no __html__)"""
+
+
+def carry(kind, s):
+    if kind == "list":
+        return [s, "b"]
+    if kind == "tuple":
+        return (s, 1)
+    if kind == "dict":
+        return {"k": s}
+    if kind == "obj":
+        return _StrObj(s)
+    if kind == "strsub":
+        return _StrSub(s)
+    raise ValueError(kind)
+
+
+def build(jinja2, spec, taints, carrier=None):
     from markupsafe import Markup
     value, args, kwargs = spec
     pos = positions(spec)
@@ -102,9 +136,13 @@ def build(jinja2, spec, taints):
 
     def s_for(p):
         i = idx[p]
-        return Markup(SAFE[i]) if tmap[p] else "x " + PAY[i]
+        if tmap[p]:
+            return Markup(SAFE[i])
+        return carry(carrier, "x " + PAY[i]) if carrier else "x " + PAY[i]
 
     def wrap(kind, base):
+        if not isinstance(base, str):
+            return base
         cls = Markup if isinstance(base, Markup) else str
         if kind == "fmt":
             return base + cls(" %s|%s")
@@ -129,7 +167,7 @@ def build(jinja2, spec, taints):
         else:
             b = s_for("v")
             if k == "ls":
-                v = [b, b + ("" if not isinstance(b, Markup) else Markup("")) + "2"]
+                v = [b, (b + ("" if not isinstance(b, Markup) else Markup("")) + "2") if isinstance(b, str) else b]
             elif k == "ds":
                 v = {"k": b}
             elif k == "ns":
@@ -160,14 +198,14 @@ def is_clean(text):
     return not any(c in text for c in "<>\"'")
 
 
-def observe(jinja2, name, spec, taints, env=None, ctx=None):
+def observe(jinja2, name, spec, taints, env=None, ctx=None, carrier=None):
     """-> dict(is_mk, flows, emitted, error)"""
     from markupsafe import Markup, escape
     env = env or jinja2.Environment(autoescape=True)
     tctx = ctx or env.from_string("").new_context({})
     ectx = tctx.eval_ctx
     ectx.autoescape = True
-    v, a, kw, pos = build(jinja2, spec, taints)
+    v, a, kw, pos = build(jinja2, spec, taints, carrier)
     try:
         import random as _random
         _random.seed(7)
@@ -209,8 +247,21 @@ def all_cases(jinja2):
                 yield name, vi, spec, taints
 
 
-def key(name, vi, taints):
-    return f"{name}#{vi}:" + "".join("M" if t else "p" for t in taints)
+def key(name, vi, taints, carrier=None):
+    return f"{name}#{vi}:" + "".join("M" if t else "p" for t in taints) + ("@" + carrier if carrier else "")
+
+
+def carrier_cases(jinja2):
+    """every filter call shape again with each plain string position replaced by a NON-string value
+    carrying the payload (list / tuple / dict / object with __str__ / str subclass); all-plain taints"""
+    from jinja2.filters import FILTERS
+    for name in sorted(FILTERS):
+        for vi, spec in enumerate(SPECS.get(name) or []):
+            n = len(positions(spec))
+            if n == 0:
+                continue
+            for c in CARRIERS:
+                yield name, vi, spec, (False,) * n, c
 
 
 def coq_table(rows):
@@ -401,3 +452,330 @@ EXPECTED = {'abs#0:': (False, ''),
  'wordwrap#1:p': (False, 'n'),
  'xmlattr#0:M': (True, 'r'),
  'xmlattr#0:p': (True, 'e')}
+
+# rows with non-string carriers of the payload: key -> (result is Markup, flows) | ('error', exception class)
+EXPECTED_CARRIERS = {'attr#0:p@dict': (False, 'r'),
+ 'attr#0:p@list': (False, 'r'),
+ 'attr#0:p@obj': (False, 'r'),
+ 'attr#0:p@strsub': (False, 'r'),
+ 'attr#0:p@tuple': (False, 'r'),
+ 'batch#0:pp@dict': (False, 'rn'),
+ 'batch#0:pp@list': (False, 'rn'),
+ 'batch#0:pp@obj': (False, 'rn'),
+ 'batch#0:pp@strsub': (False, 'rn'),
+ 'batch#0:pp@tuple': (False, 'rn'),
+ 'capitalize#0:p@dict': (False, 'r'),
+ 'capitalize#0:p@list': (False, 'r'),
+ 'capitalize#0:p@obj': (False, 'r'),
+ 'capitalize#0:p@strsub': (False, 'r'),
+ 'capitalize#0:p@tuple': (False, 'r'),
+ 'center#0:p@dict': (False, 'r'),
+ 'center#0:p@list': (False, 'r'),
+ 'center#0:p@obj': (False, 'r'),
+ 'center#0:p@strsub': (False, 'r'),
+ 'center#0:p@tuple': (False, 'r'),
+ 'count#0:p@dict': (False, 'n'),
+ 'count#0:p@list': (False, 'n'),
+ 'count#0:p@obj': ('error', 'TypeError'),
+ 'count#0:p@strsub': (False, 'n'),
+ 'count#0:p@tuple': (False, 'n'),
+ 'd#0:pp@dict': (False, 'rn'),
+ 'd#0:pp@list': (False, 'rn'),
+ 'd#0:pp@obj': (False, 'rn'),
+ 'd#0:pp@strsub': (False, 'rn'),
+ 'd#0:pp@tuple': (False, 'rn'),
+ 'd#1:p@dict': (False, 'r'),
+ 'd#1:p@list': (False, 'r'),
+ 'd#1:p@obj': (False, 'r'),
+ 'd#1:p@strsub': (False, 'r'),
+ 'd#1:p@tuple': (False, 'r'),
+ 'default#0:pp@dict': (False, 'rn'),
+ 'default#0:pp@list': (False, 'rn'),
+ 'default#0:pp@obj': (False, 'rn'),
+ 'default#0:pp@strsub': (False, 'rn'),
+ 'default#0:pp@tuple': (False, 'rn'),
+ 'default#1:p@dict': (False, 'r'),
+ 'default#1:p@list': (False, 'r'),
+ 'default#1:p@obj': (False, 'r'),
+ 'default#1:p@strsub': (False, 'r'),
+ 'default#1:p@tuple': (False, 'r'),
+ 'default#2:p@dict': (False, 'r'),
+ 'default#2:p@list': (False, 'r'),
+ 'default#2:p@obj': (False, 'r'),
+ 'default#2:p@strsub': (False, 'r'),
+ 'default#2:p@tuple': (False, 'r'),
+ 'dictsort#0:p@dict': (False, 'r'),
+ 'dictsort#0:p@list': (False, 'r'),
+ 'dictsort#0:p@obj': (False, 'r'),
+ 'dictsort#0:p@strsub': (False, 'r'),
+ 'dictsort#0:p@tuple': (False, 'r'),
+ 'e#0:p@dict': (True, 'e'),
+ 'e#0:p@list': (True, 'e'),
+ 'e#0:p@obj': (True, 'e'),
+ 'e#0:p@strsub': (True, 'e'),
+ 'e#0:p@tuple': (True, 'e'),
+ 'escape#0:p@dict': (True, 'e'),
+ 'escape#0:p@list': (True, 'e'),
+ 'escape#0:p@obj': (True, 'e'),
+ 'escape#0:p@strsub': (True, 'e'),
+ 'escape#0:p@tuple': (True, 'e'),
+ 'first#0:p@dict': (False, 'n'),
+ 'first#0:p@list': (False, 'r'),
+ 'first#0:p@obj': ('error', 'TypeError'),
+ 'first#0:p@strsub': (False, 'n'),
+ 'first#0:p@tuple': (False, 'r'),
+ 'first#1:p@dict': (False, 'r'),
+ 'first#1:p@list': (False, 'r'),
+ 'first#1:p@obj': (False, 'r'),
+ 'first#1:p@strsub': (False, 'r'),
+ 'first#1:p@tuple': (False, 'r'),
+ 'float#0:p@dict': (False, 'n'),
+ 'float#0:p@list': (False, 'n'),
+ 'float#0:p@obj': (False, 'n'),
+ 'float#0:p@strsub': (False, 'n'),
+ 'float#0:p@tuple': (False, 'n'),
+ 'forceescape#0:p@dict': (True, 'e'),
+ 'forceescape#0:p@list': (True, 'e'),
+ 'forceescape#0:p@obj': (True, 'e'),
+ 'forceescape#0:p@strsub': (True, 'e'),
+ 'forceescape#0:p@tuple': (True, 'e'),
+ 'format#0:ppp@dict': ('error', 'TypeError'),
+ 'format#0:ppp@list': ('error', 'TypeError'),
+ 'format#0:ppp@obj': ('error', 'TypeError'),
+ 'format#0:ppp@strsub': (False, 'rrr'),
+ 'format#0:ppp@tuple': ('error', 'TypeError'),
+ 'groupby#0:p@dict': ('error', 'TypeError'),
+ 'groupby#0:p@list': (False, 'r'),
+ 'groupby#0:p@obj': ('error', 'TypeError'),
+ 'groupby#0:p@strsub': (False, 'r'),
+ 'groupby#0:p@tuple': (False, 'r'),
+ 'indent#0:pp@dict': ('error', 'TypeError'),
+ 'indent#0:pp@list': ('error', 'TypeError'),
+ 'indent#0:pp@obj': ('error', 'TypeError'),
+ 'indent#0:pp@strsub': (False, 'rr'),
+ 'indent#0:pp@tuple': ('error', 'TypeError'),
+ 'indent#1:pp@dict': ('error', 'TypeError'),
+ 'indent#1:pp@list': ('error', 'TypeError'),
+ 'indent#1:pp@obj': ('error', 'TypeError'),
+ 'indent#1:pp@strsub': (False, 'rr'),
+ 'indent#1:pp@tuple': ('error', 'TypeError'),
+ 'int#0:p@dict': (False, 'n'),
+ 'int#0:p@list': (False, 'n'),
+ 'int#0:p@obj': (False, 'n'),
+ 'int#0:p@strsub': (False, 'n'),
+ 'int#0:p@tuple': (False, 'n'),
+ 'items#0:p@dict': (False, 'r'),
+ 'items#0:p@list': (False, 'r'),
+ 'items#0:p@obj': (False, 'r'),
+ 'items#0:p@strsub': (False, 'r'),
+ 'items#0:p@tuple': (False, 'r'),
+ 'join#0:pp@dict': (False, 'rr'),
+ 'join#0:pp@list': (False, 'rr'),
+ 'join#0:pp@obj': (False, 'rr'),
+ 'join#0:pp@strsub': (False, 'rr'),
+ 'join#0:pp@tuple': (False, 'rr'),
+ 'join#1:p@dict': (False, 'r'),
+ 'join#1:p@list': (False, 'r'),
+ 'join#1:p@obj': (False, 'r'),
+ 'join#1:p@strsub': (False, 'r'),
+ 'join#1:p@tuple': (False, 'r'),
+ 'last#0:p@dict': (False, 'n'),
+ 'last#0:p@list': (False, 'n'),
+ 'last#0:p@obj': ('error', 'TypeError'),
+ 'last#0:p@strsub': (False, 'n'),
+ 'last#0:p@tuple': (False, 'n'),
+ 'last#1:p@dict': (False, 'r'),
+ 'last#1:p@list': (False, 'r'),
+ 'last#1:p@obj': (False, 'r'),
+ 'last#1:p@strsub': (False, 'r'),
+ 'last#1:p@tuple': (False, 'r'),
+ 'length#0:p@dict': (False, 'n'),
+ 'length#0:p@list': (False, 'n'),
+ 'length#0:p@obj': ('error', 'TypeError'),
+ 'length#0:p@strsub': (False, 'n'),
+ 'length#0:p@tuple': (False, 'n'),
+ 'list#0:p@dict': (False, 'n'),
+ 'list#0:p@list': (False, 'r'),
+ 'list#0:p@obj': ('error', 'TypeError'),
+ 'list#0:p@strsub': (False, 'n'),
+ 'list#0:p@tuple': (False, 'r'),
+ 'lower#0:p@dict': (False, 'r'),
+ 'lower#0:p@list': (False, 'r'),
+ 'lower#0:p@obj': (False, 'r'),
+ 'lower#0:p@strsub': (False, 'r'),
+ 'lower#0:p@tuple': (False, 'r'),
+ 'map#0:p@dict': (False, 'r'),
+ 'map#0:p@list': (False, 'r'),
+ 'map#0:p@obj': (False, 'r'),
+ 'map#0:p@strsub': (False, 'r'),
+ 'map#0:p@tuple': (False, 'r'),
+ 'map#1:p@dict': (False, 'r'),
+ 'map#1:p@list': (False, 'r'),
+ 'map#1:p@obj': (False, 'r'),
+ 'map#1:p@strsub': (False, 'r'),
+ 'map#1:p@tuple': (False, 'r'),
+ 'max#0:p@dict': ('error', 'TypeError'),
+ 'max#0:p@list': (False, 'r'),
+ 'max#0:p@obj': ('error', 'TypeError'),
+ 'max#0:p@strsub': (False, 'r'),
+ 'max#0:p@tuple': (False, 'r'),
+ 'min#0:p@dict': ('error', 'TypeError'),
+ 'min#0:p@list': (False, 'r'),
+ 'min#0:p@obj': ('error', 'TypeError'),
+ 'min#0:p@strsub': (False, 'r'),
+ 'min#0:p@tuple': (False, 'r'),
+ 'pprint#0:p@dict': (False, 'r'),
+ 'pprint#0:p@list': (False, 'r'),
+ 'pprint#0:p@obj': (False, 'r'),
+ 'pprint#0:p@strsub': (False, 'r'),
+ 'pprint#0:p@tuple': (False, 'r'),
+ 'random#0:p@dict': (False, 'r'),
+ 'random#0:p@list': (False, 'r'),
+ 'random#0:p@obj': (False, 'r'),
+ 'random#0:p@strsub': (False, 'r'),
+ 'random#0:p@tuple': (False, 'r'),
+ 'reject#0:p@dict': (False, 'r'),
+ 'reject#0:p@list': (False, 'r'),
+ 'reject#0:p@obj': (False, 'r'),
+ 'reject#0:p@strsub': (False, 'r'),
+ 'reject#0:p@tuple': (False, 'r'),
+ 'rejectattr#0:p@dict': (False, 'r'),
+ 'rejectattr#0:p@list': (False, 'r'),
+ 'rejectattr#0:p@obj': (False, 'r'),
+ 'rejectattr#0:p@strsub': (False, 'r'),
+ 'rejectattr#0:p@tuple': (False, 'r'),
+ 'replace#0:ppp@dict': (False, 'rnn'),
+ 'replace#0:ppp@list': (False, 'rnn'),
+ 'replace#0:ppp@obj': (False, 'rnn'),
+ 'replace#0:ppp@strsub': (False, 'rnn'),
+ 'replace#0:ppp@tuple': (False, 'rnn'),
+ 'replace#1:pp@dict': (False, 'rn'),
+ 'replace#1:pp@list': (False, 'rn'),
+ 'replace#1:pp@obj': (False, 'rn'),
+ 'replace#1:pp@strsub': (False, 'rr'),
+ 'replace#1:pp@tuple': (False, 'rn'),
+ 'reverse#0:p@dict': (False, 'n'),
+ 'reverse#0:p@list': (False, 'r'),
+ 'reverse#0:p@obj': ('error', 'FilterArgumentError'),
+ 'reverse#0:p@strsub': (False, 'n'),
+ 'reverse#0:p@tuple': (False, 'r'),
+ 'safe#0:p@dict': (True, 'r'),
+ 'safe#0:p@list': (True, 'r'),
+ 'safe#0:p@obj': (True, 'r'),
+ 'safe#0:p@strsub': (True, 'r'),
+ 'safe#0:p@tuple': (True, 'r'),
+ 'select#0:p@dict': (False, 'n'),
+ 'select#0:p@list': (False, 'n'),
+ 'select#0:p@obj': (False, 'n'),
+ 'select#0:p@strsub': (False, 'r'),
+ 'select#0:p@tuple': (False, 'n'),
+ 'selectattr#0:p@dict': (False, 'r'),
+ 'selectattr#0:p@list': (False, 'r'),
+ 'selectattr#0:p@obj': (False, 'r'),
+ 'selectattr#0:p@strsub': (False, 'r'),
+ 'selectattr#0:p@tuple': (False, 'r'),
+ 'slice#0:pp@dict': (False, 'rn'),
+ 'slice#0:pp@list': (False, 'rn'),
+ 'slice#0:pp@obj': (False, 'rn'),
+ 'slice#0:pp@strsub': (False, 'rn'),
+ 'slice#0:pp@tuple': (False, 'rn'),
+ 'sort#0:p@dict': (False, 'r'),
+ 'sort#0:p@list': (False, 'r'),
+ 'sort#0:p@obj': (False, 'r'),
+ 'sort#0:p@strsub': (False, 'r'),
+ 'sort#0:p@tuple': (False, 'r'),
+ 'string#0:p@dict': (False, 'r'),
+ 'string#0:p@list': (False, 'r'),
+ 'string#0:p@obj': (False, 'r'),
+ 'string#0:p@strsub': (False, 'r'),
+ 'string#0:p@tuple': (False, 'r'),
+ 'striptags#0:p@dict': (False, 'n'),
+ 'striptags#0:p@list': (False, 'n'),
+ 'striptags#0:p@obj': (False, 'n'),
+ 'striptags#0:p@strsub': (False, 'n'),
+ 'striptags#0:p@tuple': (False, 'n'),
+ 'title#0:p@dict': (False, 'r'),
+ 'title#0:p@list': (False, 'r'),
+ 'title#0:p@obj': (False, 'r'),
+ 'title#0:p@strsub': (False, 'r'),
+ 'title#0:p@tuple': (False, 'r'),
+ 'tojson#0:p@dict': (True, 'n'),
+ 'tojson#0:p@list': (True, 'n'),
+ 'tojson#0:p@obj': ('error', 'TypeError'),
+ 'tojson#0:p@strsub': (True, 'n'),
+ 'tojson#0:p@tuple': (True, 'n'),
+ 'tojson#1:p@dict': (True, 'n'),
+ 'tojson#1:p@list': (True, 'n'),
+ 'tojson#1:p@obj': ('error', 'TypeError'),
+ 'tojson#1:p@strsub': (True, 'n'),
+ 'tojson#1:p@tuple': (True, 'n'),
+ 'trim#0:p@dict': (False, 'r'),
+ 'trim#0:p@list': (False, 'r'),
+ 'trim#0:p@obj': (False, 'r'),
+ 'trim#0:p@strsub': (False, 'r'),
+ 'trim#0:p@tuple': (False, 'r'),
+ 'trim#1:pp@dict': ('error', 'TypeError'),
+ 'trim#1:pp@list': ('error', 'TypeError'),
+ 'trim#1:pp@obj': ('error', 'TypeError'),
+ 'trim#1:pp@strsub': (False, 'nn'),
+ 'trim#1:pp@tuple': ('error', 'TypeError'),
+ 'truncate#0:pp@dict': (False, 'rn'),
+ 'truncate#0:pp@list': (False, 'rn'),
+ 'truncate#0:pp@obj': ('error', 'TypeError'),
+ 'truncate#0:pp@strsub': (False, 'rr'),
+ 'truncate#0:pp@tuple': (False, 'rn'),
+ 'truncate#1:pp@dict': (False, 'rn'),
+ 'truncate#1:pp@list': (False, 'rn'),
+ 'truncate#1:pp@obj': ('error', 'TypeError'),
+ 'truncate#1:pp@strsub': (False, 'rr'),
+ 'truncate#1:pp@tuple': (False, 'rn'),
+ 'unique#0:p@dict': ('error', 'TypeError'),
+ 'unique#0:p@list': ('error', 'TypeError'),
+ 'unique#0:p@obj': (False, 'r'),
+ 'unique#0:p@strsub': (False, 'r'),
+ 'unique#0:p@tuple': (False, 'r'),
+ 'upper#0:p@dict': (False, 'r'),
+ 'upper#0:p@list': (False, 'r'),
+ 'upper#0:p@obj': (False, 'r'),
+ 'upper#0:p@strsub': (False, 'r'),
+ 'upper#0:p@tuple': (False, 'r'),
+ 'urlencode#0:p@dict': (False, 'n'),
+ 'urlencode#0:p@list': ('error', 'ValueError'),
+ 'urlencode#0:p@obj': (False, 'n'),
+ 'urlencode#0:p@strsub': (False, 'n'),
+ 'urlencode#0:p@tuple': ('error', 'ValueError'),
+ 'urlize#0:p@dict': (True, 'e'),
+ 'urlize#0:p@list': (True, 'e'),
+ 'urlize#0:p@obj': (True, 'e'),
+ 'urlize#0:p@strsub': (True, 'e'),
+ 'urlize#0:p@tuple': (True, 'e'),
+ 'urlize#1:ppp@dict': ('error', 'AttributeError'),
+ 'urlize#1:ppp@list': ('error', 'AttributeError'),
+ 'urlize#1:ppp@obj': ('error', 'AttributeError'),
+ 'urlize#1:ppp@strsub': (True, 'eee'),
+ 'urlize#1:ppp@tuple': ('error', 'AttributeError'),
+ 'urlize#2:p@dict': (True, 'e'),
+ 'urlize#2:p@list': (True, 'e'),
+ 'urlize#2:p@obj': (True, 'e'),
+ 'urlize#2:p@strsub': (True, 'e'),
+ 'urlize#2:p@tuple': (True, 'e'),
+ 'wordcount#0:p@dict': (False, 'n'),
+ 'wordcount#0:p@list': (False, 'n'),
+ 'wordcount#0:p@obj': (False, 'n'),
+ 'wordcount#0:p@strsub': (False, 'n'),
+ 'wordcount#0:p@tuple': (False, 'n'),
+ 'wordwrap#0:pp@dict': ('error', 'AttributeError'),
+ 'wordwrap#0:pp@list': ('error', 'AttributeError'),
+ 'wordwrap#0:pp@obj': ('error', 'AttributeError'),
+ 'wordwrap#0:pp@strsub': (False, 'nr'),
+ 'wordwrap#0:pp@tuple': ('error', 'AttributeError'),
+ 'wordwrap#1:p@dict': ('error', 'AttributeError'),
+ 'wordwrap#1:p@list': ('error', 'AttributeError'),
+ 'wordwrap#1:p@obj': ('error', 'AttributeError'),
+ 'wordwrap#1:p@strsub': (False, 'n'),
+ 'wordwrap#1:p@tuple': ('error', 'AttributeError'),
+ 'xmlattr#0:p@dict': (True, 'e'),
+ 'xmlattr#0:p@list': (True, 'e'),
+ 'xmlattr#0:p@obj': (True, 'e'),
+ 'xmlattr#0:p@strsub': (True, 'e'),
+ 'xmlattr#0:p@tuple': (True, 'e')}
